@@ -226,7 +226,7 @@ func c18Program(r *rand.Rand, d int, fault string, useModule bool, handledFirst 
 
 func checkC18(c *Ctx) {
 	c.rule = "fixed location cases (35 hand-written programs: loop / branch conditions on later passes, hoisted definitions, failing imports and faults down a chain of modules, missing 输入, faults at call entry, lines after empty annotations, leftover indented lines) with every expected (module, line) written down; runtime faults: call chains main -> 层1 -> … -> 层d (d = 0..4; levels >= 2 optionally in an imported module, level 1 optionally a type method) whose innermost body raises one of 11 fault kinds at a generator-known statement (plain, inside 如果, inside 遍历), with calls that returned earlier, an earlier handled exception, and multi-line literals / comments / bracket continuations / wide characters before the fault; rendered with LF, CR, CRLF or LFCR line ends, TAB or 4-space indents, blank lines and comments. The DisplayError text is parsed into (module, line, quoted text) entries and compared with the reference evaluator's call stack at the fault mapped to physical lines by the renderer: same entries in either printing order, no entry for a returned call, quoted text = that physical line. Syntax faults: an unknown character / stray closing bracket planted at a known offset of a valid program: line, quoted line and caret column (display width of the text before the character; ASCII 1, CJK/full-width 2). distinct_nontrivial = distinct (fault kind, depth, module/method/handled flags, line-end style, fault line)"
-	c.assumptions = []string{"fault statements occupy one physical line", "for a fault inside a handler block only containment is judged (every entry is an active frame, outermost call site and faulting statement present); unterminated literals and EOF positions are not judged", "frames that have not started a statement yet (line unknown) are compared by module only"}
+	c.assumptions = []string{"fault statements occupy one physical line", "unterminated literals and EOF positions are not judged", "frames that have not started a statement yet (line unknown) are compared by module only"}
 	rng := c.Rand("c18")
 	type rcase struct {
 		req    Req
@@ -314,7 +314,13 @@ func checkC18(c *Ctx) {
 		}
 		// expected entries
 		exp := []c18Frame{}
-		for _, f := range cs.ref.Frames {
+		for k, f := range cs.ref.Frames {
+			// a handler block runs in place of its body: the body is not at a call site any more
+			// (the statement it was interrupted in is over - if that was a call, the call has
+			// returned), so the only entry of that level is the handler's own current line
+			if k+1 < len(cs.ref.Frames) && cs.ref.Frames[k+1].Kind == "handler" {
+				continue
+			}
 			e := c18Frame{module: f.Module}
 			if f.Line != 0 {
 				e.line = cs.lineOf[f.Module][f.Line]
@@ -358,49 +364,7 @@ func checkC18(c *Ctx) {
 			rev[len(got)-1-k] = got[k]
 		}
 		if cs.inHandler {
-			// a fault inside a handler block: which entry the interrupted body itself contributes
-			// is not fixed by the statement, so only this is required: every printed entry is one
-			// of the frames active at the fault (none of a call that has returned), in a consistent
-			// order, and both the outermost call site and the faulting statement are among them
-			sub := func(g []c18Frame) string {
-				k := 0
-				for _, f := range g {
-					found := false
-					for k < len(exp) {
-						e := exp[k]
-						k++
-						if e.module == f.module && (e.line == 0 || e.line == f.line) {
-							found = true
-							break
-						}
-					}
-					if !found {
-						return fmt.Sprintf("entry %s:%d (%q) is not a frame active at the fault (or is out of order)", f.module, f.line, strings.TrimSpace(f.text))
-					}
-				}
-				has := func(e c18Frame) bool {
-					for _, f := range g {
-						if f.module == e.module && (e.line == 0 || f.line == e.line) {
-							return true
-						}
-					}
-					return false
-				}
-				if len(exp) > 0 && (!has(exp[0]) || !has(exp[len(exp)-1])) {
-					return "the outermost call site or the faulting statement is missing from the chain"
-				}
-				return ""
-			}
 			c.Count("faults_inside_handlers_judged", 1)
-			dd := sub(got)
-			if dd != "" && sub(rev) != "" {
-				expDesc := []string{}
-				for _, e := range exp {
-					expDesc = append(expDesc, fmt.Sprintf("%s:%d", e.module, e.line))
-				}
-				c.Violation(key, fmt.Sprintf("%s: %s\nframes active at the fault (outermost first): %s\nerror text:\n%s\nmain file:\n%s", cs.shape, dd, strings.Join(expDesc, " -> "), resp.Err.Text, clip(cs.srcs["主模块"], 1500)), rp)
-			}
-			return
 		}
 		d1 := match(got)
 		if d1 != "" && match(rev) != "" {
@@ -467,6 +431,10 @@ func c18Fixed(c *Ctx) {
 		{name: "comment/empty-annotation-crlf", files: map[string]string{"main.zn": "注：\r\n令甲 = 1\r\n令乙 = 1 / 0\r\n"}, accept: [][]fr{{{M, 3}}}},
 		{name: "comment/empty-annotation-trailing", files: map[string]string{"main.zn": "令甲 = 1  注：\n令乙 = 2\n令丙 = 乙 / 0\n"}, accept: [][]fr{{{M, 3}}}},
 		{name: "comment/empty-annotation-undefined", files: map[string]string{"main.zn": "注：\n令甲 = 1\n输出 甲\n"}, accept: nil},
+		{name: "handler-fault/top-level", files: map[string]string{"main.zn": "令A = 1\n令B = A / 0\n令C = 2\n拦截异常：\n\t令D = 1\n\t令E = D / 0\n"}, accept: [][]fr{{{M, 6}}}},
+		{name: "handler-fault/after-returned-call", files: map[string]string{"main.zn": "如何丙？\n\t令Z = 1\n\t令W = Z / 0\n\n如何乙？\n\t令Y = 1 / 0\n\n如何甲？\n\t令X = 1\n\t（乙）\n\t令X2 = 1\n\t拦截异常：\n\t\t令Q = 1\n\t\t（丙）\n\n令A = 1\n（甲）\n"}, accept: [][]fr{{{M, 17}, {M, 14}, {M, 3}}}},
+		{name: "handler-fault/handler-name-is-no-identifier", files: map[string]string{"main.zn": "如何乙？\n\t令K = 1\n\t令Y = 1 / 0\n\n如何甲？\n\t令K = 1\n\t（乙）\n\n\t拦截1异常：\n\t\t输出5\n\n令A = 1\n（甲）\n"}, accept: [][]fr{{{M, 13}, {M, 7}}, {{M, 13}, {M, 9}}}},
+		{name: "handler-fault/in-handler-of-handler-caller", files: map[string]string{"main.zn": "如何乙？\n\t令Y = 1 / 0\n\n\t拦截异常：\n\t\t令丁 = 【1】#5\n\n如何甲？\n\t（乙）\n\n\t拦截异常：\n\t\t令戊 = 1\n\t\t令己 = 戊 / 0\n\n令A = 1\n（甲）\n"}, accept: [][]fr{{{M, 15}, {M, 12}}}},
 		{name: "syntax/leftover-indented-line", files: map[string]string{"main.zn": "令甲 = 1\n    令乙 = 2\n令丙 = 3\n"}, accept: [][]fr{{{M, 2}}}, syntax: true, caretAt: "令"},
 		{name: "syntax/leftover-after-block", files: map[string]string{"main.zn": "如果 真：\n\t令甲 = 1\n\t\t令乙 = 2\n"}, accept: [][]fr{{{M, 3}}}, syntax: true, caretAt: "令"},
 		{name: "syntax/after-empty-annotation", files: map[string]string{"main.zn": "注：\n令甲 = 1\n令乙 = = 0\n"}, accept: [][]fr{{{M, 3}}}, syntax: true, caretAt: ""},
